@@ -24,7 +24,7 @@ EXPLANATION = ("read() verified under the fault-free stream contract with a ghos
 
 def units(tier):
     us = []
-    for q in ("_read_bytes", "_read_line", "_parse_rtcm3", "_parse_ubx", "_parse_nmea", "parse", "_do_error", "__next__", "__init__"):
+    for q in ("_read_bytes", "_read_line", "_parse_rtcm3", "_parse_ubx", "_parse_nmea", "parse", "_do_error", "__next__", "__iter__", "__init__"):
         us += func_units(f"{R}.{q}", tier)
     us += func_units(f"{R}.read", tier)
     # frames with unknown message numbers are returnable: unknown identities always construct (stub)
